@@ -27,6 +27,8 @@ impl Fate {
 pub struct Probe {
     pub fate: Fate,
     pub lines: Vec<String>,
+    /// What happened after a stopped child was sent SIGCONT (only with `follow_stops`).
+    pub after_cont: Option<Fate>,
 }
 
 impl Probe {
@@ -72,6 +74,7 @@ struct Running {
     start: Instant,
     eof: bool,
     fate: Option<Fate>,
+    stopped: Option<i32>,
 }
 
 /// Run `n` cells, each in its own forked child (up to `conc` at a time). The child runs
@@ -113,7 +116,7 @@ pub fn run_cells<F: Fn(usize, &mut Emit)>(n: usize, conc: usize, timeout: Durati
                 let fl = libc::fcntl(fds[0], libc::F_GETFL);
                 libc::fcntl(fds[0], libc::F_SETFL, fl | libc::O_NONBLOCK);
             }
-            running.push(Running { idx: next, pid, fd: fds[0], buf: Vec::new(), start: Instant::now(), eof: false, fate: None });
+            running.push(Running { idx: next, pid, fd: fds[0], buf: Vec::new(), start: Instant::now(), eof: false, fate: None, stopped: None });
             next += 1;
         }
         // poll the pipes
@@ -141,10 +144,18 @@ pub fn run_cells<F: Fn(usize, &mut Emit)>(n: usize, conc: usize, timeout: Durati
                 let w = unsafe { libc::waitpid(r.pid, &mut st, libc::WNOHANG | libc::WUNTRACED) };
                 if w == r.pid {
                     if libc::WIFSTOPPED(st) {
-                        r.fate = Some(Fate::Stopped(libc::WSTOPSIG(st)));
-                        unsafe {
-                            libc::kill(r.pid, libc::SIGKILL);
-                            libc::waitpid(r.pid, &mut st, 0);
+                        if r.stopped.is_none() {
+                            // remember the stop, continue the child and see what it does next
+                            r.stopped = Some(libc::WSTOPSIG(st));
+                            unsafe {
+                                libc::kill(r.pid, libc::SIGCONT);
+                            }
+                        } else {
+                            r.fate = Some(Fate::Stopped(libc::WSTOPSIG(st)));
+                            unsafe {
+                                libc::kill(r.pid, libc::SIGKILL);
+                                libc::waitpid(r.pid, &mut st, 0);
+                            }
                         }
                     } else if libc::WIFEXITED(st) {
                         r.fate = Some(Fate::Exited(libc::WEXITSTATUS(st)));
@@ -179,7 +190,12 @@ pub fn run_cells<F: Fn(usize, &mut Emit)>(n: usize, conc: usize, timeout: Durati
                     libc::close(r.fd);
                 }
                 let text = String::from_utf8_lossy(&r.buf).to_string();
-                out[r.idx] = Some(Probe { fate: r.fate.unwrap(), lines: text.lines().map(|s| s.to_string()).collect() });
+                let fin = r.fate.unwrap();
+                let (fate, after) = match r.stopped {
+                    Some(sg) => (Fate::Stopped(sg), Some(fin)),
+                    None => (fin, None),
+                };
+                out[r.idx] = Some(Probe { fate, lines: text.lines().map(|s| s.to_string()).collect(), after_cont: after });
             } else {
                 i += 1;
             }
